@@ -34,7 +34,7 @@ Proof. exact doc_b_spec. Qed.
 (* --- accept <-> documented domain, all strings ---------------------------------------------------
    every keyword except width/height/opacity/shape: stroke, fill, font-color, fill-pattern,
    stroke-width [0,15], stroke-dash [0,10], border-radius >= 0, font-size [8,100], the nine boolean
-   style flags, font, text-transform, top, left, grid-rows/columns > 0, grid-gap, vertical-gap,
+   style flags, font, text-transform, label.near, icon.near, tooltip.near, top, left, grid-rows/columns > 0, grid-gap, vertical-gap,
    horizontal-gap >= 0, direction, theme-id, dark-theme-id, pad, sketch, center; in every context. *)
 Theorem C16_accept_iff_in_domain : forall g c k v,
   clean k = true -> (accepts g c k v = true <-> DocDomain g c k v).
@@ -115,6 +115,33 @@ Theorem C16_accepted_value_unchanged : forall g c k v,
   stored c k v = v \/ (keyword_valued k = true /\ go_lower (stored c k v) = go_lower v).
 Proof. exact accepted_value_unchanged. Qed.
 
+(* --- near: CONSTANT (object at the root of the diagram; ParseKey is an oracle) ------------------ *)
+Theorem C16_near_constants_accepted :
+  forall parse_key : list N -> option (list (list N)),
+    (forall w, ident_word w = true -> parse_key w = Some [w]) ->
+    forall v, DocNear v -> near_accepts parse_key v = true.
+Proof. exact near_complete. Qed.
+
+(* refuted: only the first path element is compared with the constants, "top-center.foo" passes *)
+Theorem C16_near_refuted :
+  (forall w, ident_word w = true -> pk_witness w = Some [w]) /\
+  near_accepts pk_witness str_top_center_foo = true /\ ~ DocNearKey (pk_witness str_top_center_foo).
+Proof. exact near_refuted. Qed.
+
+Theorem C16_near_accept_iff_key :
+  forall (parse_key : list N -> option (list (list N))) v,
+    (exists w, parse_key v = Some [w]) ->
+    (near_accepts parse_key v = true <-> DocNearKey (parse_key v)).
+Proof. exact near_accept_iff_key. Qed.
+
+Theorem C16_doc_near_key_b_is_DocNearKey : forall p, doc_near_key_b p = true <-> DocNearKey p.
+Proof. exact doc_near_key_b_spec. Qed.
+
+Theorem C16_near_guarded :
+  forall (parse_key : list N -> option (list (list N))) v,
+    near_accepts parse_key v = true -> exists h t, parse_key v = Some (h :: t) /\ DocNear h.
+Proof. exact near_guarded. Qed.
+
 (* --- non-vacuity of the hypotheses ------------------------------------------------------------- *)
 Example C16_size_guard_satisfiable : forall z, IntLit [49; 48] z -> (0 <= z)%Z.
 Proof.
@@ -147,6 +174,14 @@ Proof. split; reflexivity. Qed.
 Example C16_num_le_bounds_satisfiable : (1 <= 2 ^ 53 + 1 <= 2 ^ (53 + 1))%Z /\ (0 <= 53 <= 1075)%Z.
 Proof. split; [split; vm_compute; discriminate | lia]. Qed.
 
+Example C16_near_hyp_satisfiable : forall w, ident_word w = true -> (fun x : list N => Some [x]) w = Some [w].
+Proof. reflexivity. Qed.
+
+Print Assumptions C16_near_constants_accepted.
+Print Assumptions C16_near_refuted.
+Print Assumptions C16_near_guarded.
+Print Assumptions C16_near_accept_iff_key.
+Print Assumptions C16_doc_near_key_b_is_DocNearKey.
 Print Assumptions C16_atoi_spec.
 Print Assumptions C16_tolower_spec.
 Print Assumptions C16_parse_float_plain_decimal.
